@@ -145,7 +145,9 @@ def _find_in_dirs_and_read(import_dirs):
                     # TODO(bolms): Check if any other files with the same name are in the
                     # import path, and give a warning or error?
                     return f.read(), None
-            except (IOError, UnicodeError) as e:
+            except (IOError, ValueError) as e:
+                # ValueError covers UnicodeError (undecodable contents) and names
+                # that open() itself rejects, such as one with an embedded NUL.
                 errors.append(str(e))
         return None, errors + ["import path " + ":".join(import_dirs)]
 
